@@ -9,3 +9,37 @@ use super::*;
 pub(crate) fn s_unpin_unreachable(_l: &Local) {
     assert!(false, "unreachable.unpin_with_null_local_guard (L1/L2 harness guards have a null local)");
 }
+
+/// A leaked participant of a private collector, pinned with `gc` live guards at `announced`
+/// (raw epoch word, pinned bit set) while the clock reads `global` - for the one L1 unit that needs
+/// a guard with a real participant behind it (the periodic re-announcement of long disposals).
+pub(crate) fn mk_cut_local(gc: usize, collecting: bool, global: usize, announced: usize) -> &'static Local {
+    let c: &'static Collector = Box::leak(Box::new(Collector::new()));
+    let l: &'static Local = Box::leak(Box::new(Local {
+        entry: Entry::default(),
+        collector: UnsafeCell::new(ManuallyDrop::new(c.clone())),
+        bag: UnsafeCell::new(Bag(Vec::with_capacity(2))),
+        guard_count: Cell::new(gc),
+        handle_count: Cell::new(1),
+        advance_count: Cell::new(0),
+        prev_epoch: Cell::new(Epoch::starting()),
+        pin_count: Cell::new(0),
+        manual_count: Cell::new(0),
+        must_collect: Cell::new(false),
+        collecting: Cell::new(collecting),
+        epoch: CachePadded::new(AtomicEpoch::new(Epoch::starting())),
+    }));
+    unsafe {
+        *(&c.global.epoch as *const _ as *const AtomicEpoch as *mut usize) = global;
+        *(&l.epoch as *const _ as *const AtomicEpoch as *mut usize) = announced;
+    }
+    l
+}
+/// (`internal` is a private module of `ebr_impl`: harness modules elsewhere in the crate reach the
+/// helpers above through these inherent functions of the exported `Guard`.)
+impl Guard {
+    pub(crate) fn verif_cut_guard(gc: usize, collecting: bool, global: usize, announced: usize) -> ManuallyDrop<Guard> {
+        ManuallyDrop::new(Guard { local: mk_cut_local(gc, collecting, global, announced) })
+    }
+    pub(crate) fn verif_cut_announced(&self) -> usize { unsafe { *(&(*self.local).epoch as *const _ as *const AtomicEpoch as *const usize) } }
+}
